@@ -182,6 +182,9 @@ BoundaryMenu ==
   \cup {ExprOnly(CaseE(<<<<Lit(c), Lit(IntV(1))>>>>, Arith("/", One, Zero))) : c \in {BoolV(TRUE), BoolV(FALSE), Null}}
   \cup {ExprOnly(BoolE(f, Lit(x), CmpE("=", Arith("/", One, Zero), One))) : f \in {"and", "or"}, x \in {BoolV(TRUE), BoolV(FALSE), Null}}
   \cup {ExprOnly(InE(ng, Lit(x), <<Lit(y), Lit(z)>>)) : ng \in BOOLEAN, x \in {Null, IntV(1)}, y \in {Null, IntV(1), IntV(2)}, z \in {Null, IntV(2)}}
+  \cup {ExprOnly(NotE(InE(ng, Lit(x), <<Lit(y), Lit(z)>>))) : ng \in BOOLEAN, x \in {Null, IntV(1)}, y \in {Null, IntV(1), IntV(2)}, z \in {Null, IntV(2)}}       \* NOT over IN is not NOT IN (two-valued logic, NULL)
+  \cup {ExprOnly(NotE(IsE(ng, Lit(x), Lit(y)))) : ng \in BOOLEAN, x \in {Null, IntV(1)}, y \in {Null, IntV(1), IntV(2)}}
+  \cup {ExprOnly(NotE(CmpE(f, Lit(x), Lit(y)))) : f \in {"=", "!=", "<", ">="}, x \in {Null, IntV(1)}, y \in {Null, IntV(1), IntV(2)}}                       \* NOT (NULL = 1) is TRUE: a comparison with NULL is false
   \cup {ExprOnly(Call(f, <<Lit(TextV(<<97, 201, 98>>))>>)) : f \in {"upper", "lower", "length"}}
   \cup {ExprOnly(Call(f, <<Lit(TsV(<<2021, 3, 28, 2, 30, 59, 0>>))>>)) : f \in {"extract_year", "extract_month", "extract_day", "extract_hour", "extract_minute", "extract_second"}}
 LinesOne == {KV(A, IntV(1))}
